@@ -17,8 +17,9 @@ import (
 type State struct {
 	env    map[ssa.Value]*Val
 	heaps  map[string]*Mem
-	pc     *Term
-	top    *Term
+	pc     *Term // path condition relative to the current function activation
+	base   *Term // path condition of the enclosing activations (full condition = base && pc)
+	top    *Term // frontier of objects allocated by callees / earlier loop iterations (unknown refs)
 	havocs []*havocRec // every havoc applied on the way here (ordered by id), for lazy heaps
 }
 
@@ -29,10 +30,11 @@ type havocRec struct {
 	guard  *Term
 	covers func(name string) bool
 	pred   func(name string, key []*Term) *Term
+	refOK  func(*Term) *Term
 }
 
 func (s *State) clone() *State {
-	n := &State{pc: s.pc, top: s.top, havocs: s.havocs, env: make(map[ssa.Value]*Val, len(s.env)+8), heaps: make(map[string]*Mem, len(s.heaps)+4)}
+	n := &State{pc: s.pc, base: s.base, top: s.top, havocs: s.havocs, env: make(map[ssa.Value]*Val, len(s.env)+8), heaps: make(map[string]*Mem, len(s.heaps)+4)}
 	for k, v := range s.env {
 		n.env[k] = v
 	}
@@ -106,6 +108,9 @@ type Exec struct {
 	unitFn        *ssa.Function
 	usedContracts map[string]bool
 	globals       map[string]uint64
+	nameCount     map[string]int
+	allocCtr      int
+	freshBaseName map[string]string
 }
 
 type inputSym struct {
@@ -128,8 +133,11 @@ func (x *Exec) fact(t *Term) {
 	x.facts = append(x.facts, t)
 }
 
+// full is the complete path condition of a state.
+func (x *Exec) full(st *State) *Term { return x.tb.And(st.base, st.pc) }
+
 func (x *Exec) assumeIn(st *State, t *Term) {
-	g := x.tb.Implies(st.pc, t)
+	g := x.tb.Implies(x.full(st), t)
 	if g.IsTrue() {
 		return
 	}
@@ -148,8 +156,15 @@ func (x *Exec) oblige(st *State, kind, name string, pos token.Pos, goal *Term) {
 	if x.ghost > 0 {
 		return
 	}
-	o := &Oblig{Name: x.unit + "#" + name, Kind: kind, Func: x.unit, Pos: x.posStr(pos), PC: st.pc, Goal: goal, NHyps: len(x.assumes)}
-	if goal.IsTrue() || st.pc.IsFalse() {
+	if x.nameCount == nil {
+		x.nameCount = map[string]int{}
+	}
+	x.nameCount[name]++
+	if c := x.nameCount[name]; c > 1 {
+		name = fmt.Sprintf("%s.%d", name, c)
+	}
+	o := &Oblig{Name: x.unit + "#" + name, Kind: kind, Func: x.unit, Pos: x.posStr(pos), PC: x.full(st), Goal: goal, NHyps: len(x.assumes)}
+	if goal.IsTrue() || o.PC.IsFalse() {
 		o.Trivial = true
 		o.Status = "unsat"
 		o.Solver = "simplifier"
@@ -175,6 +190,10 @@ func (x *Exec) heap(st *State, name string, arity, sort int) *Mem {
 	m, ok := x.bases[name]
 	if !ok {
 		m = x.newBase(name, arity, sort)
+		if isRefComp(name) {
+			tb, top0 := x.tb, x.top0
+			m.refBound = func(r *Term) *Term { return tb.Cmp("bvule", r, top0) }
+		}
 		x.bases[name] = m
 	}
 	for _, h := range st.havocs {
@@ -186,12 +205,24 @@ func (x *Exec) heap(st *State, name string, arity, sort int) *Mem {
 	return m
 }
 
+// isRefComp: the heap component holds references (pointer, map, slice/string #ref).
+func isRefComp(name string) bool {
+	return strings.HasSuffix(name, "#ref") || strings.HasSuffix(name, "$p")
+}
+
 func (x *Exec) applyHavoc(m *Mem, name string, h *havocRec, guarded bool) *Mem {
 	k := fmt.Sprintf("%d|%s", h.id, name)
 	fresh, ok := x.epochBases[k]
 	if !ok {
 		fresh = x.newBase(name, m.arity, m.sort)
+		if isRefComp(name) {
+			fresh.refBound = h.refOK
+		}
 		x.epochBases[k] = fresh
+		if x.freshBaseName == nil {
+			x.freshBaseName = map[string]string{}
+		}
+		x.freshBaseName[fresh.ufName] = name
 	}
 	tb := x.tb
 	return m.Havoc(func(key []*Term) *Term {
@@ -206,7 +237,7 @@ func (x *Exec) applyHavoc(m *Mem, name string, h *havocRec, guarded bool) *Mem {
 // havoc applies a forget event to the state.
 func (x *Exec) havoc(st *State, covers func(string) bool, pred func(string, []*Term) *Term) {
 	x.nhavoc++
-	h := &havocRec{id: x.nhavoc, guard: st.pc, covers: covers, pred: pred}
+	h := &havocRec{id: x.nhavoc, guard: x.full(st), covers: covers, pred: pred, refOK: x.refOK(st)}
 	st.havocs = append(append([]*havocRec{}, st.havocs...), h)
 	for name, m := range st.heaps {
 		if covers(name) {
@@ -219,10 +250,10 @@ func (x *Exec) load(st *State, a *Addr, t types.Type) *Val {
 	cs := flatten(t)
 	v := &Val{T: t, C: make([]*Term, len(cs))}
 	for i, c := range cs {
-		m := x.heap(st, a.prefix+c.suffix, len(a.keys), c.sort)
-		v.C[i] = m.Select(x, a.keys)
+		m := x.heap(st, a.prefix+c.suffix, len(a.keys), c.hsort())
+		v.C[i] = x.tb.ZExt(c.sort, m.Select(x, a.keys))
 	}
-	for _, f := range x.validity(v, st.top) {
+	for _, f := range x.validity(v, nil) {
 		x.fact(f)
 	}
 	return v
@@ -235,8 +266,12 @@ func (x *Exec) store(st *State, a *Addr, v *Val) {
 	}
 	for i, c := range cs {
 		name := a.prefix + c.suffix
-		m := x.heap(st, name, len(a.keys), c.sort)
-		st.heaps[name] = m.Store(x.tb, a.keys, v.C[i])
+		m := x.heap(st, name, len(a.keys), c.hsort())
+		val := v.C[i]
+		if c.hsort() != c.sort {
+			val = x.tb.Extract(c.hsort()-1, 0, val)
+		}
+		st.heaps[name] = m.Store(x.tb, a.keys, val)
 	}
 }
 
@@ -248,13 +283,41 @@ func (x *Exec) addrOf(p *Val, t types.Type) *Addr {
 	return &Addr{prefix: heapPrefix(t), keys: []*Term{p.C[0]}}
 }
 
+// Reference space.  References are abstract identities, so the engine is free to choose
+// them: objects that exist at the unit's entry are in (0, top0] with top0 < 2^59; objects
+// allocated by callees (by contract) or by earlier iterations of a cut loop are unknown
+// references in (2^59, st.top] with st.top < 2^60; every allocation the engine executes
+// itself gets the concrete reference 2^60+k (k unique per unit), which makes distinctness
+// of allocations syntactic.  Error globals are at 2^62+k, string literals at 2^63+k.
+const (
+	calleeBase = uint64(1) << 59
+	ownBase    = uint64(1) << 60
+)
+
 func (x *Exec) alloc(st *State, hint string) *Term {
+	x.allocCtr++
+	_ = hint
+	return x.tb.BV(64, ownBase+uint64(x.allocCtr))
+}
+
+// refOK: the bound every reference read in state st satisfies.
+func (x *Exec) refOK(st *State) func(r *Term) *Term {
+	tb := x.tb
+	top := st.top
+	hi := tb.BV(64, ownBase+uint64(x.allocCtr))
+	return func(r *Term) *Term {
+		return tb.Or(tb.Cmp("bvule", r, top), tb.And(tb.Cmp("bvule", tb.BV(64, ownBase), r), tb.Cmp("bvule", r, hi)))
+	}
+}
+
+// bumpTop moves the unknown-allocation frontier (after a call or a loop cut).
+func (x *Exec) bumpTop(st *State) {
+	tb := x.tb
 	x.nsym++
-	r := x.tb.Var(fmt.Sprintf("%s!%d", hint, x.nsym), 64)
-	x.fact(x.tb.Cmp("bvult", st.top, r))
-	x.fact(x.tb.Cmp("bvult", r, x.tb.BV(64, 1<<62)))
-	st.top = r
-	return r
+	ntop := tb.Var(fmt.Sprintf("top!%d", x.nsym), 64)
+	x.fact(tb.Cmp("bvule", st.top, ntop))
+	x.fact(tb.Cmp("bvult", ntop, tb.BV(64, ownBase)))
+	st.top = ntop
 }
 
 // ---------------------------------------------------------------------------------------
@@ -596,7 +659,7 @@ func (x *Exec) runFunc(fn *ssa.Function, args []*Val, st *State, con *Contract, 
 		return nil, nil, err
 	}
 	// a private env for the callee
-	cs := &State{env: map[ssa.Value]*Val{}, heaps: st.heaps, pc: st.pc, top: st.top, havocs: st.havocs}
+	cs := &State{env: map[ssa.Value]*Val{}, heaps: st.heaps, pc: x.tb.True, base: x.full(st), top: st.top, havocs: st.havocs}
 	cs = cs.clone()
 	for i, p := range fn.Params {
 		if i >= len(args) {
@@ -661,7 +724,14 @@ func (x *Exec) runFunc(fn *ssa.Function, args []*Val, st *State, con *Contract, 
 		vals[j] = v
 	}
 	// give the caller its env back
-	ret := &State{env: st.env, heaps: out.heaps, pc: out.pc, top: out.top, havocs: out.havocs}
+	// Every path of the callee that does not return was turned into an obligation and then
+	// assumed away, so under the accumulated assumptions the callee returns: the caller's
+	// path condition is unchanged (and stays syntactically small).
+	rpc := st.pc
+	if out.pc.IsFalse() {
+		rpc = x.tb.False
+	}
+	ret := &State{env: st.env, heaps: out.heaps, pc: rpc, base: st.base, top: out.top, havocs: out.havocs}
 	return vals, ret, nil
 }
 
@@ -670,7 +740,7 @@ func (x *Exec) runNode(fr *frameRun, n *xnode) error {
 	switch n.kind {
 	case 2: // unwinding assertion
 		for _, in := range n.in {
-			x.oblige(in.st, "unwind", fmt.Sprintf("loop%d.unwind", n.loop.ord), n.b.Instrs[0].Pos(), tb.Not(in.st.pc))
+			x.oblige(in.st, "unwind", fmt.Sprintf("loop%d.unwind", n.loop.ord), n.b.Instrs[0].Pos(), tb.Not(x.full(in.st)))
 			if x.ghost > 0 && !in.st.pc.IsFalse() {
 				x.unsupported(fr.fn.Name(), fmt.Sprintf("ghost loop %d not fully unrolled", n.loop.ord))
 			}
@@ -802,7 +872,7 @@ func (x *Exec) runNode(fr *frameRun, n *xnode) error {
 			return nil
 		case *ssa.Panic:
 			if x.ghost == 0 {
-				x.oblige(st, "safe", fmt.Sprintf("safe.panic@%s", x.posStr(in.Pos())), in.Pos(), tb.Not(st.pc))
+				x.oblige(st, "safe", fmt.Sprintf("safe.panic@%s", x.posStr(in.Pos())), in.Pos(), tb.False)
 			}
 			return nil
 		default:
@@ -950,7 +1020,6 @@ func (x *Exec) assumeInvariants(fr *frameRun, l *loopInfo, st *State) error {
 // components written inside the loop (restricted to the unit's frame and to objects
 // allocated since entry) and the allocation frontier.
 func (x *Exec) havocLoop(fr *frameRun, l *loopInfo, st *State, phis []*ssa.Phi) {
-	tb := x.tb
 	for _, phi := range phis {
 		nv := x.fresh(phi.Type(), "loop_"+phi.Comment)
 		if old := st.env[phi]; old != nil {
@@ -963,15 +1032,11 @@ func (x *Exec) havocLoop(fr *frameRun, l *loopInfo, st *State, phis []*ssa.Phi) 
 		}
 		st.env[phi] = nv
 	}
-	// the frontier may move
-	x.nsym++
-	ntop := tb.Var(fmt.Sprintf("top!%d", x.nsym), 64)
-	x.fact(tb.Cmp("bvule", st.top, ntop))
-	x.fact(tb.Cmp("bvult", ntop, tb.BV(64, 1<<62)))
+	// the frontier may move (objects allocated by earlier iterations)
 	oldTop := st.top
-	st.top = ntop
+	x.bumpTop(st)
 	for _, phi := range phis {
-		for _, f := range x.validity(st.env[phi], st.top) {
+		for _, f := range x.validity(st.env[phi], x.refOK(st)) {
 			x.fact(f)
 		}
 	}
@@ -997,7 +1062,7 @@ func (x *Exec) framePred(oldTop *Term) func(name string, key []*Term) *Term {
 			}
 			in := tb.Eq(key[0], f.ref)
 			if f.lo != nil && len(key) > 1 {
-				in = tb.And(in, tb.Cmp("bvule", f.lo, key[1]), tb.Cmp("bvult", key[1], f.hi))
+				in = tb.And(in, tb.Cmp("bvult", tb.Sub(key[1], f.lo), tb.Sub(f.hi, f.lo)))
 			}
 			c = tb.Or(c, in)
 		}
